@@ -513,6 +513,7 @@ const (
 	c14SharePicks   = 20000
 	c14ShareFactor  = 0.7
 	c14StarveWindow = 3 * time.Second
+	c14ShareWindow  = 60 * time.Second
 )
 
 // share: backend 0 fails every call. Once its completions span >= 0.8*decayTime
@@ -528,6 +529,14 @@ func c14RunShare(m *vk.M, idx int, cfg c14DerivedCfg) (ok bool) {
 	mon := c14NewMon(m, p, cidx, desc)
 	defer mon.flush("share_")
 	sim := &c14Sim{mon: mon, lastPick: make([]int64, cfg.N)}
+	for i := range sim.lastPick {
+		sim.lastPick[i] = int64(c14Start)
+	}
+	if cfg.N <= 8 {
+		// moderate traffic (100 picks per virtual second): a very wide window
+		sim.window = int64(c14ShareWindow)
+	}
+	defer func() { m.Max("share_max_gap_ms", sim.maxGap/1e6) }()
 	latOK := 2 * time.Millisecond
 	latBad := latOK
 	if cfg.Variant == "fastfail" {
@@ -541,8 +550,9 @@ func c14RunShare(m *vk.M, idx int, cfg c14DerivedCfg) (ok bool) {
 		return latOK
 	}
 	r := rand.New(rand.NewSource(cfg.Seed ^ 0xbad))
+	failing := false
 	errk := func(i int) c14ErrKind {
-		if i == 0 {
+		if i == 0 && failing {
 			if r.Intn(2) == 0 {
 				return c14Fail1
 			}
@@ -550,14 +560,22 @@ func c14RunShare(m *vk.M, idx int, cfg c14DerivedCfg) (ok bool) {
 		}
 		return c14OK
 	}
-	// phase A: until the failing backend's completions span 0.8*decayTime
+	// warm-up: 2 virtual seconds in which every backend succeeds (scores 1000,
+	// recent completion stamps), then backend 0 starts failing every call
+	for end := int64(timex.Now()) + int64(2*time.Second); int64(timex.Now()) < end; {
+		if _, ok := sim.one(lat, errk, gap); !ok {
+			return true
+		}
+	}
+	failing = true
+	// phase A: until the failing backend's failed completions span 0.8*decayTime
 	span := decayTime * 8 / 10
 	var first, last int64 = -1, -1
 	compsA := 0
 	for steps := 0; ; steps++ {
 		if steps > 400000 {
 			m.Inconclusive("case %d: failing backend completed only %d calls in %d picks; span not reached", idx, compsA, steps)
-			return false
+			return true // this scenario decides nothing; the others still run
 		}
 		i, ok := sim.one(lat, errk, gap)
 		if !ok {
@@ -578,6 +596,7 @@ func c14RunShare(m *vk.M, idx int, cfg c14DerivedCfg) (ok bool) {
 	su := c14Read(u)
 	m.Count("share_unhealthy_checks", 1)
 	m.Max("share_max_failures_until_span", int64(compsA))
+	m.Max("share_max_success_at_unhealthy_check", int64(su.success))
 	if su.success > throttleSuccess || u.healthy() {
 		mon.violate("C14:unhealthy:all-fail-backend-still-healthy", "backend 0 failed all %d calls, completions spanning %.2fs of virtual time (>= 0.8*decay), but success=%d healthy()=%v (threshold %d)",
 			compsA, float64(last-first)/1e9, su.success, u.healthy(), throttleSuccess)
@@ -598,7 +617,10 @@ func c14RunShare(m *vk.M, idx int, cfg c14DerivedCfg) (ok bool) {
 			minH = c
 		}
 	}
-	ratio := float64(cnt[0]) / float64(minH)
+	ratio := 1e6 // a healthy backend with no pick at all: keep the number finite (JSON)
+	if minH > 0 {
+		ratio = float64(cnt[0]) / float64(minH)
+	}
 	m.Count("share_scenarios", 1)
 	m.Max(fmt.Sprintf("share_ratio_permille_max_n%d_%s", cfg.N, cfg.Variant), int64(ratio*1000))
 	if m.WantSample() {
@@ -645,7 +667,7 @@ func c14RunStarve(m *vk.M, idx int, cfg c14DerivedCfg) (ok bool) {
 		}
 		return latOK
 	}
-	failing := cfg.Variant == "fail-recover"
+	failing := false
 	errk := func(i int) c14ErrKind {
 		if i == 0 && failing {
 			return c14Fail1
@@ -663,6 +685,10 @@ func c14RunStarve(m *vk.M, idx int, cfg c14DerivedCfg) (ok bool) {
 		return mon.picks[0] - before, true
 	}
 	u := p.conns[0]
+	if _, ok0 := runFor(2 * time.Second); !ok0 { // warm-up: everybody succeeds
+		return true
+	}
+	failing = cfg.Variant == "fail-recover"
 	p1, ok1 := runFor(15 * time.Second)
 	if !ok1 {
 		return true
@@ -672,6 +698,7 @@ func c14RunStarve(m *vk.M, idx int, cfg c14DerivedCfg) (ok bool) {
 	var s2 c14Snap
 	if failing {
 		m.Count("starve_unhealthy_checks", 1)
+		m.Max("starve_max_success_at_unhealthy_check", int64(s1.success))
 		if s1.success > throttleSuccess || u.healthy() {
 			mon.violate("C14:unhealthy:all-fail-backend-still-healthy", "slow backend 0 failed all %d calls over 15 virtual seconds but success=%d healthy()=%v", p1, s1.success, u.healthy())
 			return true
@@ -684,6 +711,7 @@ func c14RunStarve(m *vk.M, idx int, cfg c14DerivedCfg) (ok bool) {
 		}
 		s2 = c14Read(u)
 		m.Count("starve_recovery_checks", 1)
+		m.Max("starve_max_deficit_after_recovery(1000-success)", int64(initSuccess)-int64(s2.success))
 		if s2.success <= throttleSuccess || !u.healthy() {
 			mon.violate("C14:recovery:score-not-regained", "backend 0 succeeded on all %d calls it received during 40 virtual seconds of sustained traffic after failing, but success=%d healthy()=%v (threshold %d)", p2, s2.success, u.healthy(), throttleSuccess)
 			return true
@@ -707,7 +735,7 @@ func c14RunStarve(m *vk.M, idx int, cfg c14DerivedCfg) (ok bool) {
 
 func TestVerifC14Derived(t *testing.T) {
 	logx.Disable()
-	m := vk.New(t, "C14", fmt.Sprintf("sequential sustained traffic on the virtual clock. share: backend 0 fails every call (Unavailable/DeadlineExceeded), others succeed; once its completions span 0.8*decayTime it must have success<=%d; then over %d picks (10ms apart, N>=4: equal latency or fast-failing) its count < %.1f x the smallest healthy count (N=3: fewer than each healthy one). starve: backend 0 25x slower, 2000 picks/virtual s, N in 2..8: every backend picked at least once in every %v of virtual time; fail-recover variant: unhealthy after 15 s of failures, success>%d again after 40 s of successes", throttleSuccess, c14SharePicks, c14ShareFactor, c14StarveWindow, throttleSuccess))
+	m := vk.New(t, "C14", fmt.Sprintf("sequential sustained traffic on the virtual clock. share: after a 2 s all-success warm-up backend 0 fails every call (Unavailable/DeadlineExceeded), others succeed; once its completions span 0.8*decayTime it must have success<=%d; then over %d picks (10ms apart, N>=4: equal latency or fast-failing) its count < %.1f x the smallest healthy count (N=3: fewer than each healthy one); for N<=8 no backend goes unpicked for %v. starve: backend 0 25x slower, 2000 picks/virtual s, N in 2..8: every backend picked at least once in every %v of virtual time; after a 2 s all-success warm-up; fail-recover variant: unhealthy after 15 s of failures, success>%d again after 40 s of successes", throttleSuccess, c14SharePicks, c14ShareFactor, c14ShareWindow, c14StarveWindow, throttleSuccess))
 	defer m.Done()
 	defer timex.VerifRealClock()
 	reps := vk.N(3, 40)
